@@ -615,6 +615,28 @@ func checkLoaderLoops(w *World, r *Report) {
 		}
 	}
 	r.floor("loader loops", n, 1)
+
+	// inside Engine.Load (and its parts) a source is only ever asked of an element of e.loaders
+	// taken in a walk over that list: a loader picked any other way (the one remembered on the
+	// cached template, a subset built for the reload) lets a later loader answer for a name an
+	// earlier one has
+	nLoad := 0
+	for fn := range w.loadPartsSet() {
+		instrsOf(fn, func(in ssa.Instruction) {
+			c, ok := in.(*ssa.Call)
+			if !ok || !c.Call.IsInvoke() || c.Call.Method.Name() != "Load" || !isNamed(c.Call.Value.Type(), twigPath, "Loader") {
+				return
+			}
+			nLoad++
+			construct := "the loader asked for the source is an element of e.loaders"
+			if tn, f := originFieldStrict(c.Call.Value, 0); f == "loaders" && tn == "Engine" {
+				r.ok("R15.2", ssaName(fn), construct, w.posOf(c.Pos()), "element of the registration-ordered list", true)
+			} else {
+				r.bad("R15.2", ssaName(fn), construct, w.posOf(c.Pos()), "Engine.Load asks a loader that is not (only) an element of e.loaders for the source — a remembered loader or a list built on the way: the loaders are then not consulted in registration order, so a name that an earlier loader has (or has gained) is answered by a later one")
+			}
+		})
+	}
+	r.floor("Loader.Load calls in Engine.Load", nLoad, 1)
 }
 
 // timestampSource classifies where an int64 timestamp comes from: "loader" if every non-constant
@@ -870,4 +892,49 @@ func checkModTimeSources(w *World, r *Report) {
 		})
 	}
 	r.floor("successful returns of GetModifiedTime implementations", n, 2)
+}
+
+// originFieldStrict is originField that requires every phi edge to lead to the same field.
+func originFieldStrict(v ssa.Value, depth int) (string, string) {
+	if depth > 10 {
+		return "", ""
+	}
+	switch x := v.(type) {
+	case *ssa.UnOp:
+		if fa, ok := x.X.(*ssa.FieldAddr); ok {
+			return fieldOfAddr(fa)
+		}
+		if u := unspill(x); u != ssa.Value(x) {
+			return originFieldStrict(u, depth+1)
+		}
+		return originFieldStrict(x.X, depth+1)
+	case *ssa.IndexAddr:
+		return originFieldStrict(x.X, depth+1)
+	case *ssa.Index:
+		return originFieldStrict(x.X, depth+1)
+	case *ssa.Extract:
+		return originFieldStrict(x.Tuple, depth+1)
+	case *ssa.Next:
+		return originFieldStrict(x.Iter, depth+1)
+	case *ssa.Range:
+		return originFieldStrict(x.X, depth+1)
+	case *ssa.Phi:
+		t0, f0 := "", ""
+		for i, e := range x.Edges {
+			if e == ssa.Value(x) {
+				continue
+			}
+			t, f := originFieldStrict(e, depth+1)
+			if f == "" || (i > 0 && f0 != "" && (t != t0 || f != f0)) {
+				return "", ""
+			}
+			t0, f0 = t, f
+		}
+		return t0, f0
+	case *ssa.Slice:
+		return originFieldStrict(x.X, depth+1)
+	case *ssa.FieldAddr:
+		return fieldOfAddr(x)
+	}
+	return "", ""
 }
